@@ -173,11 +173,11 @@ def main():
         cli(sys.argv, mode='output')
 
     except ValueError as e:
-        error_msg("GRAPH ERROR: " + str(e))
+        error_msg("GRAPH ERROR: " + str(e), prefix='c ')
         sys.exit(-1)
 
     except CLIError as e:
-        error_msg(str(e))
+        error_msg(str(e), prefix='c ')
         sys.exit(-1)
 
     except InternalBug as e:
